@@ -206,6 +206,10 @@ func c13Run(c c13Case, o *hx.Obs) {
 			if s3, e3 := sel.Find("?filter=" + url.QueryEscape(c.Text)); e3 == nil && s3 != nil {
 				nodeutil.WriteJSON(s3)
 			}
+		case "getvalue":
+			var v interface{}
+			v, rerr = sel.GetValue(c.Text)
+			_ = v
 		case "setvalue":
 			s2, ferr := sel.Find(c.Leaf)
 			if ferr != nil || s2 == nil {
@@ -242,7 +246,7 @@ func c13Run(c c13Case, o *hx.Obs) {
 		return
 	}
 	_ = text
-	if rerr != nil && (c.Kind == "find" || c.Kind == "query" || c.Kind == "xpath") {
+	if rerr != nil && (c.Kind == "find" || c.Kind == "query" || c.Kind == "xpath" || c.Kind == "getvalue") {
 		after, e := store.Snapshot()
 		if e != nil {
 			o.Failf("corrupted|snapshot|"+c.Kind, "%v", e)
@@ -435,7 +439,7 @@ func c13GenDoc(t *rapid.T) c13Case {
 		case p.schema.Kind == "leaf-list":
 			kindHere = "leaf-list"
 		}
-		mut := rapid.SampledFrom([]string{"object", "array", "scalar", "null", "number", "bool", "drop-key", "nested-array", "string"}).Draw(t, "mut")
+		mut := rapid.SampledFrom([]string{"object", "array", "scalar", "null", "number", "bool", "drop-key", "drop-key", "nested-array", "string", "null-element"}).Draw(t, "mut")
 		c.Mutation = kindHere + "->" + mut
 		c.Expect = ""
 		switch mut {
@@ -468,10 +472,16 @@ func c13GenDoc(t *rapid.T) c13Case {
 			}
 		case "null":
 			p.set(nil)
+		case "null-element":
+			if l, ok := cur.([]interface{}); ok && len(l) > 0 {
+				l[rapid.IntRange(0, len(l)-1).Draw(t, "element")] = nil
+			} else {
+				p.set([]interface{}{nil})
+			}
 		case "drop-key":
 			if p.entry && len(p.schema.Keys) > 0 {
 				if mm, ok := cur.(map[string]interface{}); ok {
-					delete(mm, p.schema.Keys[0])
+					delete(mm, p.schema.Keys[rapid.IntRange(0, len(p.schema.Keys)-1).Draw(t, "which-key")])
 					c.Mutation = "entry->drop-key"
 					c.Expect = "error" // a list entry without its key
 				}
@@ -498,7 +508,7 @@ func c13GenDoc(t *rapid.T) c13Case {
 var c13Docs = hx.Register(&hx.Check[c13Case]{
 	Name:    "c13-documents",
 	Journal: true,
-	Rule:    "a valid JSON or XML edit document for a generated schema with 1-2 mutations at random schema positions (object<->array<->scalar<->null, number/bool where a node is declared, list entry without its key, nested arrays, renamed / duplicated / nested elements, text in containers, children in leaves), truncation at a random byte or a stray token, applied with upsert / insert / update at the root, a container, a list or a list entry of reference, map-backed Reflect and map-backed Node targets holding data; no panic or hang, the named shape mismatches must be errors, stored data stays readable; every case is non-trivial",
+	Rule:    "a valid JSON or XML edit document for a generated schema with 1-2 mutations at random schema positions (object<->array<->scalar<->null, number/bool where a node is declared, list entry without one of its keys, null elements in arrays, nested arrays, renamed / duplicated / nested elements, text in containers, children in leaves), truncation at a random byte or a stray token, applied with upsert / insert / update at the root, a container, a list or a list entry of reference, map-backed Reflect and map-backed Node targets holding data; no panic or hang, the named shape mismatches must be errors, stored data stays readable; every case is non-trivial",
 	Gen:     c13GenDoc,
 	Run:     c13Run,
 })
@@ -509,6 +519,13 @@ func c13GenReq(t *rapid.T) c13Case {
 	o := dm.DefaultGen()
 	o.Types = []string{"int8", "int32", "uint64", "decimal64", "string", "boolean", "enumeration", "bits", "identityref", "binary", "empty"}
 	o.KeyTypes = []string{"string", "int32", "boolean", "enumeration"}
+	store := rapid.SampledFrom([]string{"rs", "rs", "reflect-map", "node-map", "reflect-slice", "node-slice"}).Draw(t, "store")
+	if store != "rs" {
+		// what the Go-data stores can hold (as in C03 / C18)
+		o.Unions, o.ConfigFalse, o.CompoundKeys = false, false, true
+		o.Types = []string{"int8", "int32", "int64", "uint16", "uint64", "decimal64", "string", "boolean"}
+		o.KeyTypes = []string{"string", "int32"}
+	}
 	m := dm.GenModule(t, o)
 	// operations: an rpc at the top, an action and a notification in every container and list of the first two levels
 	const opBody = ` input { leaf delay { type int32; } container opts { leaf o { type string; } } list il { key k; leaf k { type string; } } } output { leaf r { type string; } }`
@@ -520,7 +537,7 @@ func c13GenReq(t *rapid.T) c13Case {
 	}
 	root := m.Root()
 	data := dm.GenTree(t, root, dm.TreeOpts{MaxEntries: 3, EasyKeys: true, EasyStrings: true, PresentPct: 80, NoEmptyStr: true})
-	c := c13Case{Module: m, Data: data, Store: "rs"}
+	c := c13Case{Module: m, Data: data, Store: store}
 	paths := dm.AllPaths(root, data, nil)
 	var target dm.Path
 	if len(paths) > 0 {
@@ -608,6 +625,13 @@ func c13GenReq(t *rapid.T) c13Case {
 		if c.Text == "" && c.Mutation == "" {
 			c.Text, c.Mutation = valid+"=", "junk-suffix"
 		}
+		if c.Mutation != "operation" && rapid.IntRange(0, 4).Draw(t, "getvalue") == 0 {
+			// the same path given to GetValue, also continued to a leaf below an item that may not be there
+			c.Kind, c.Expect = "getvalue", ""
+			if rapid.Bool().Draw(t, "leaf-below") {
+				c.Text += "/" + rapid.SampledFrom([]string{"f1", "v", "x", "k"}).Draw(t, "leafname")
+			}
+		}
 	case 1: // query strings
 		c.Kind = "query"
 		names := []string{"depth", "content", "fields", "fc.xfields", "with-defaults", "fc.range", "fc.max-node-count", "where", "filter", "bogus", ""}
@@ -640,6 +664,12 @@ func c13GenReq(t *rapid.T) c13Case {
 			b.WriteString(rapid.SampledFrom(toks).Draw(t, "tok"))
 		}
 		c.Text, c.Mutation = b.String(), "xpath-soup"
+		if rapid.IntRange(0, 14).Draw(t, "deep-path") == 0 {
+			// a path of very many steps
+			step := rapid.SampledFrom(toks[:6]).Draw(t, "step")
+			c.Text = strings.Repeat(step+"/", rapid.SampledFrom([]int{63, 64, 65, 255, 256, 257, 300, 1000}).Draw(t, "nsteps")) + step + "=1"
+			c.Mutation = "xpath-deep-path"
+		}
 		// where needs a list target
 		var listNode *dm.Node
 		for _, p := range paths {
@@ -717,7 +747,7 @@ func c13GenReq(t *rapid.T) c13Case {
 var c13Reqs = hx.Register(&hx.Check[c13Case]{
 	Name:    "c13-requests",
 	Journal: true,
-	Rule:    "Find paths derived from a valid path by: key on a container, step below a leaf, wrong number of compound keys, junk suffix / insertion / deletion (= / , % %zz ? & .. : NUL ...), ../ past the root, token soup, rpc / action / notification names with steps below them and request bodies of every shape; query strings over every parameter name with empty, negative, huge, malformed and schema-derived values; where=/filter= XPath text as token soup (up to 300 tokens) and as well-formed comparisons with every operator over leaves that are unset in some rows; SetValue with 27 kinds of Go values (nil, NaN, slices, maps, structs, pointers, channels, functions ...) on every leaf type; no panic or hang, key-on-container and step-below-leaf must be errors, navigation leaves the data unchanged; every case is non-trivial",
+	Rule:    "Find paths derived from a valid path by: key on a container, step below a leaf, wrong number of compound keys, junk suffix / insertion / deletion (= / , % %zz ? & .. : NUL ...), ../ past the root, token soup, rpc / action / notification names with steps below them and request bodies of every shape; query strings over every parameter name with empty, negative, huge, malformed and schema-derived values; where=/filter= XPath text as token soup (up to 300 tokens) and as well-formed comparisons with every operator over leaves that are unset in some rows; GetValue with the same paths; a where= path of up to 1000 steps; all of it on reference, map- and slice-backed Reflect and Node stores; SetValue with 27 kinds of Go values (nil, NaN, slices, maps, structs, pointers, channels, functions ...) on every leaf type; no panic or hang, key-on-container and step-below-leaf must be errors, navigation leaves the data unchanged; every case is non-trivial",
 	Gen:     c13GenReq,
 	Run:     c13Run,
 })
